@@ -513,6 +513,22 @@ func writesInput(f *ssa.Function, in ssa.Instruction) string {
 			}
 			return ""
 		}
+		// sync/atomic updates of a field of an input (a memo on the selector, a counter on a subnet): state that
+		// survives the call
+		if (strings.HasPrefix(n, "sync/atomic.") || strings.HasPrefix(n, "(*sync/atomic.")) && len(cc.Args) > 0 {
+			mname := n[strings.LastIndex(n[:strings.IndexAny(n+"[", "[")+0], ".")+1:]
+			if strings.HasPrefix(n, "(*") {
+				// "(*sync/atomic.Pointer[T]).Store[T]": the method name follows ")."
+				if i := strings.Index(n, ")."); i >= 0 {
+					mname = n[i+2:]
+				}
+			}
+			for _, w := range []string{"Store", "Swap", "Add", "And", "Or", "CompareAndSwap"} {
+				if strings.HasPrefix(mname, w) && der(cc.Args[0]) {
+					return "atomically updates " + firstN(pathOf(cc.Args[0]), 50) + ", which belongs to its input (state that survives the call)"
+				}
+			}
+		}
 		switch n {
 		case "sort.Slice", "sort.SliceStable", "sort.Sort", "sort.Stable", "sort.Strings", "sort.Ints", "slices.Sort", "slices.SortFunc", "slices.Reverse":
 			if len(cc.Args) > 0 && der(cc.Args[0]) {
